@@ -1,4 +1,5 @@
 import RxnModel.Proofs.LsmScan
+import RxnModel.Proofs.CompactionSound
 /-!
 # C07 — DKV reads return the latest write at every moment
 
@@ -8,8 +9,9 @@ background tasks relative to foreground reads and writes is covered by quantifyi
 Specification: `Spec` = the list of writes, newest first; `Spec.get` = the last write to the key.
 
 `CompactionSound` (every change set passing the executable test `safeCS` preserves the invariant) is the one
-obligation that belongs to C18; theorems that quantify over traces with compactions take it as an explicit
-hypothesis and `Props/C18.lean` discharges it. The `_noCompact` versions are unconditional.
+obligation that belongs to C18; it is proved there (`Rxn.Compaction.compactionSound`, `Proofs/CompactionSound.lean`)
+and used here, so every theorem below is unconditional and covers histories with compaction commits at arbitrary
+points. (The `_noCompact` versions do not depend on the compaction proof.)
 -/
 namespace Rxn.C07
 open Rxn Rxn.Lsm
@@ -27,10 +29,10 @@ theorem reachable_inv (as : List Act) (s : State) (m : Spec)
 
 /-- **Get returns the most recently written entry** (value or delete marker) in every reachable state: after any
 history of puts, deletes, rotations, flush begins/commits, compaction commits and reads -/
-theorem get_returns_latest_write (hc : CompactionSound) (as : List Act) (s : State) (m : Spec)
+theorem get_returns_latest_write (as : List Act) (s : State) (m : Spec)
     (h : runBoth {} [] as = some (s, m)) (k : Bytes) :
     get s k = Spec.get m k ∧ answer (get s k) = answer (Spec.get m k) := by
-  have hi := (reachable_inv as s m (Or.inr hc) h).1
+  have hi := (reachable_inv as s m (Or.inr Rxn.Compaction.compactionSound) h).1
   have : get s k = Spec.get m k := by rw [get_eq_firstHit hi]; exact hi.hit k
   exact ⟨this, by rw [this]⟩
 
@@ -42,19 +44,19 @@ theorem get_returns_latest_write_noCompact (as : List Act) (hn : noCompact as = 
 
 /-- a `Get` whose two phases (memtables, then sstables) are separated by arbitrary background commits still
 returns the latest write -/
-theorem two_phase_read (hc : CompactionSound) (as : List Act) (s : State) (m : Spec)
+theorem two_phase_read (as : List Act) (s : State) (m : Spec)
     (h : runBoth {} [] as = some (s, m)) (k : Bytes) (r : Option Entry) (hr : s.reading = some (k, r)) :
     getBResult s = Spec.get m k := by
-  have hi := reachable_inv as s m (Or.inr hc) h
+  have hi := reachable_inv as s m (Or.inr Rxn.Compaction.compactionSound) h
   exact getB_correct hi.1 hi.2 k r hr
 
 /-- **ScanPrefix returns exactly the live keys with the prefix, each once, in ascending order, with their latest
 values** in every reachable state -/
-theorem scan_returns_live_keys (hc : CompactionSound) (as : List Act) (s : State) (m : Spec)
+theorem scan_returns_live_keys (as : List Act) (s : State) (m : Spec)
     (h : runBoth {} [] as = some (s, m)) (p : Bytes) :
     (scan s p).Pairwise (fun a b => Bytes.lt a.key b.key = true) ∧
     ∀ e, e ∈ scan s p ↔ (Spec.get m e.key = some e ∧ e.del = false ∧ Bytes.hasPrefix e.key p = true) :=
-  scan_spec (reachable_inv as s m (Or.inr hc) h).1 p
+  scan_spec (reachable_inv as s m (Or.inr Rxn.Compaction.compactionSound) h).1 p
 
 theorem scan_returns_live_keys_noCompact (as : List Act) (hn : noCompact as = true) (s : State) (m : Spec)
     (h : runBoth {} [] as = some (s, m)) (p : Bytes) :
@@ -71,5 +73,14 @@ example : (runBoth {} [] demo).isSome = true := by decide
 example : (runBoth {} [] demo).map (fun sm => answer (get sm.1 [1])) = some (some [11]) := by decide
 example : (runBoth {} [] demo).map (fun sm => answer (get sm.1 [2])) = some none := by decide
 example : noCompact demo = true := by decide
+
+/-- a history with a compaction commit that the model accepts (level-0 table 0 merged into level 1) -/
+def demoCompact : List Act :=
+  [.put [1] [10], .rotate, .flushBegin 1, .flushCommit, .put [1] [11],
+   .compact [0] 1 [[⟨[1], 1, false, [10]⟩]], .put [2] [20]]
+
+example : (runBoth {} [] demoCompact).isSome = true := by decide +kernel
+example : (runBoth {} [] demoCompact).map (fun sm => answer (get sm.1 [1])) = some (some [11]) := by decide +kernel
+example : noCompact demoCompact = false := by decide
 
 end Rxn.C07
